@@ -22,6 +22,7 @@ type SCtx struct {
 	useParams  bool
 	inOld      bool
 	pkg        *types.Package
+	depth      int
 }
 
 var mathInt = types.Typ[types.UntypedInt]
@@ -806,6 +807,9 @@ func (sc *SCtx) call(x *ECall) (Val, error) {
 				return sc.convert(v, tn.Type())
 			}
 		}
+		if d, ok := g.P.Defines[id.Name]; ok {
+			return sc.defineCall(d, x.Args)
+		}
 		// uninterpreted ghost function
 		if uf, ok := g.P.UFuns[id.Name]; ok {
 			return sc.ufunCall(uf, x.Args)
@@ -1029,4 +1033,45 @@ func (sc *SCtx) seen(x *ECall) (Val, error) {
 // errIs is the uninterpreted predicate behind errors.Is.
 func (g *Gen) errIs(e, target *Term) *Term {
 	return App("vp_errIs", SBool, e, target)
+}
+
+// defineCall expands a specification macro.
+func (sc *SCtx) defineCall(d *Define, argEs []Expr) (Val, error) {
+	if len(argEs) != len(d.Params) {
+		return Val{}, fmt.Errorf("%s: expected %d arguments", d.Name, len(d.Params))
+	}
+	if sc.depth > 8 {
+		return Val{}, fmt.Errorf("%s: define expansion too deep (recursive?)", d.Name)
+	}
+	args := make([]Val, len(argEs))
+	for i, a := range argEs {
+		v, err := sc.eval(a)
+		if err != nil {
+			return Val{}, err
+		}
+		args[i] = v
+	}
+	saved := sc.bound
+	nb := map[string]Val{}
+	for i, p := range d.Params {
+		nb[p.Name] = args[i]
+	}
+	// macros see only their parameters (plus package scope)
+	sub := *sc
+	sub.bound = nb
+	sub.vars = nil
+	sub.lookup = nil
+	sub.useParams = false
+	sub.depth = sc.depth + 1
+	v, err := sub.eval(d.Body)
+	sc.bound = saved
+	if err != nil {
+		return Val{}, fmt.Errorf("in define %s: %v", d.Name, err)
+	}
+	if d.Result != "" && v.K == VScalar {
+		if rt, err := sc.typeByName(d.Result); err == nil {
+			v.Ty = rt
+		}
+	}
+	return v, nil
 }
